@@ -577,6 +577,9 @@ pub fn run_c13(args: &Args) -> i32 {
     let report = Report::new("C13", args.tier, args.seed, "exploration");
     silence_panics();
     let mut positions = search_positions(args.tier);
+    // lopsided endgames (K+Q/R/P v K, K+Q v K+N/R): the endgame terms of the evaluation only fire there
+    let stride = args.tier.pick(811, 47);
+    positions.extend(c12_positions(Tier::Quick).into_iter().step_by(stride));
     // no promotion available at the root (property text); one representative per mirror pair
     positions.retain(|p| !p.legal_moves().iter().any(|m| m.promo.is_some()) && !p.mirror().legal_moves().iter().any(|m| m.promo.is_some()));
     let mut seen = std::collections::BTreeSet::new();
@@ -608,7 +611,7 @@ pub fn run_c13(args: &Args) -> i32 {
         json!({
             "evaluations": compared,
             "distinct_nontrivial": pairs_with_depth,
-            "rule": "positions of the C11 catalogue with no promotion move at the root (either colour), one representative per mirror pair; the position and its colour mirror are each searched with empty history at expiry points k = 8, 10, 12, ... (ratio 1.25) up to the cap; the score committed for each completed depth is collected from those runs, and every depth both searches report is compared (score == negated mirror score). evaluations = (pair, depth) comparisons; non-trivial = pairs with at least one common completed depth.",
+            "rule": "positions of the C11 catalogue plus every 811th (thorough 47th) position of the C12 endgame families, with no promotion move at the root (either colour), one representative per mirror pair; the position and its colour mirror are each searched with empty history at expiry points k = 8, 10, 12, ... (ratio 1.25) up to the cap; the score committed for each completed depth is collected from those runs, and every depth both searches report is compared (score == negated mirror score). evaluations = (pair, depth) comparisons; non-trivial = pairs with at least one common completed depth.",
             "mirror_pairs": positions.len(),
             "pairs_by_number_of_depths_compared": by_depth.iter().map(|(k, v)| json!([k, v])).collect::<Vec<_>>(),
             "cap_k": cap, "max_depth_compared": max_depth,
